@@ -7,7 +7,7 @@ use std::panic::{catch_unwind, AssertUnwindSafe};
 
 pub struct Expand;
 
-const ALPHA: [&str; 15] = ["$", "{", "}", "\\", "g", "<", ">", "0", "1", "9", "x", "_", "é", " ", "-"];
+const ALPHA: [&str; 16] = ["$", "{", "}", "\\", "g", "<", ">", "0", "1", "9", "x", "_", "é", " ", "-", "²"];
 
 fn is_id(c: char) -> bool {
     c.is_alphanumeric() || c == '_'
@@ -99,6 +99,8 @@ fn setups() -> Vec<(Regex, &'static str)> {
         (Regex::new(r"(?<x>a)(b)?(?<_1>c)?(?=d)").unwrap(), "zacd"),
         (Regex::new(r"(a)(é)?(b)(?!x)").unwrap(), "aéb"),
         (Regex::new(r"(?<g>a)(?<x1>b)").unwrap(), "ab"),
+        // a group whose NAME is a number different from its index: `$1` means the group named 1
+        (Regex::new(r"(a)(?<1>b)(?<x²>c)?").unwrap(), "ab"),
     ]
 }
 
